@@ -1185,3 +1185,49 @@ package geometry
 //@   loop 0 assert holeAt(holes, $i) == holes[$i]
 //@   loop 0 invariant forall h int :: 0 <= h && h < $i ==> (polyHole(poly,h) != nil && RingShape(polyHole(poly,h)))
 //@   loop 0 invariant Frame: forall P *Poly :: old($alloc)[P] ==> (P.Exterior == old(P.Exterior) && P.Holes == old(P.Holes))
+
+//@ func rRect.largestAxis
+//@   props C04 C05 C01 C02 C03 C08 C12
+//@   arith order
+//@   requires r != nil
+//@   ensures Axis: 0 <= axis && axis < 2
+//@   loop 0 invariant 0 <= i && i <= 2 && 0 <= j && j < 2
+//@   loop 0 decreases 2 - i
+
+//@ func rRect.recalc
+//@   props C04 C05 C01 C02 C03 C08 C12
+//@   arith order
+//@   requires r != nil && r.data != nil && dyn(r.data) == typeid(*rNode)
+//@   requires Count: 1 <= as(r.data, *rNode).count && as(r.data, *rNode).count <= 17
+//@   modifies rRect.min, rRect.max
+//@   loop 0 invariant 1 <= i && i <= n.count && n == as(r.data, *rNode) && n.count == old(as(r.data, *rNode).count)
+//@   loop 0 decreases n.count - i
+
+//@ func rRect.chooseLeastEnlargement
+//@   props C04 C05 C01 C02 C03 C08 C12
+//@   arith order
+//@   requires r != nil && b != nil && r.data != nil && dyn(r.data) == typeid(*rNode)
+//@   requires Count: 0 <= as(r.data, *rNode).count && as(r.data, *rNode).count <= 17
+//@   ensures Range: -1 <= result && result < as(r.data, *rNode).count && (as(r.data, *rNode).count > 0 ==> result >= 0)
+//@   loop 0 invariant Pos: 0 <= i && i <= n.count && n == as(r.data, *rNode)
+//@   loop 0 invariant Cnt: n.count == old(as(r.data, *rNode).count)
+//@   loop 0 invariant Best: -1 <= j && j < n.count && (i > 0 ==> j >= 0) && (i == 0 ==> j == -1) && j < i
+//@   loop 0 decreases n.count - i
+//@   loop 1 invariant 1 <= j && j <= 2
+//@   loop 1 decreases 2 - j
+//@   loop 2 invariant 0 <= j && j <= 2
+//@   loop 2 decreases 2 - j
+
+// fit: panics on a dimension mismatch - callers inside the module always pass two two-element slices (precondition; the `max == nil` convenience is not used)
+//@ func fit
+//@   props C04 C05 C01 C02 C03 C08 C12
+//@   arith order
+//@   requires target != nil && len(min) == 2 && len(max) == 2
+//@   modifies rRect.min, rRect.max, rRect.data
+//@   ensures Box: forall k int :: 0 <= k && k < 2 ==> (target.min[k] == min[k] && target.max[k] == max[k])
+//@   ensures Data: target.data == value
+//@   ensures Frame: forall o *rRect :: o != target ==> (o.min == old(o.min) && o.max == old(o.max) && o.data == old(o.data))
+//@   loop 0 invariant 0 <= i && i <= 2 && len(min) == 2 && len(max) == 2
+//@   loop 0 invariant forall k int :: 0 <= k && k < i ==> (target.min[k] == min[k] && target.max[k] == max[k])
+//@   loop 0 invariant forall o *rRect :: o != target ==> (o.min == old(o.min) && o.max == old(o.max) && o.data == old(o.data))
+//@   loop 0 decreases 2 - i
